@@ -116,6 +116,13 @@ func c07(run *ev.Run, tier string) {
 			s.Deb.Fields.Set(fmt.Sprintf("X-Repro-%c%d", 'A'+r.Intn(26), r.Intn(1000)), "v"+strconv.Itoa(k))
 			s.IPK.Fields.Set(fmt.Sprintf("X-Repro-%c%d", 'A'+r.Intn(26), r.Intn(1000)), "v"+strconv.Itoa(k))
 		}
+		// custom fields whose names differ only in letter case (all of them are
+		// legal, none is reserved)
+		s.IPK.Fields.Set("Source", "s1")
+		s.IPK.Fields.Set("SOURCE", "s2")
+		s.IPK.Fields.Set("source", "s3")
+		s.Deb.Fields.Set("X-Case", "d1")
+		s.Deb.Fields.Set("X-CASE", "d2")
 		s.Depends = []string{"b", "a", "c"}
 		s.Deb.Interest = []string{"/t2", "/t1"}
 		s.IPK.Tags = []string{"z", "y"}
@@ -263,6 +270,54 @@ func c07(run *ev.Run, tier string) {
 						run.Violate("C07/"+f+"/bytes-differ/cross-process", diffDetail(cc, f, "nfpm binary "+v.name, b0, got))
 					}
 				}
+			}
+		})
+		// SOURCE_DATE_EPOCH beyond 2038 (does not fit 32 bits) is a valid fixed mtime too
+		parallel(n, 8, func(i int) {
+			cc := cases[i]
+			if cc == nil || i%4 != 1 {
+				return
+			}
+			root := cc.c.Root
+			var keep []string
+			for _, l := range strings.Split(cc.yaml, "\n") {
+				if !strings.HasPrefix(l, "mtime: ") {
+					keep = append(keep, l)
+				}
+			}
+			cfgp := filepath.Join(root, "nfpm-sde-late.yaml")
+			_ = os.WriteFile(cfgp, []byte(strings.Join(keep, "\n")), 0o644)
+			const late = 2208988800 // 2040-01-01
+			env := []string{"PATH=" + os.Getenv("PATH"), "HOME=" + root, "TZ=UTC", "SOURCE_DATE_EPOCH=" + strconv.FormatInt(late, 10)}
+			cl := *cc
+			cl.allowed = map[int64]bool{late: true}
+			for k := range cc.allowed {
+				cl.allowed[k] = true
+			}
+			delete(cl.allowed, cc.c.Spec.MTime)
+			for _, f := range formats {
+				var outs [2][]byte
+				for k := 0; k < 2; k++ {
+					target := filepath.Join(root, fmt.Sprintf("sdelate-%d.%s", k, f))
+					so, se, code, err := runCmd(nil, root, env, bin, "package", "-f", cfgp, "-p", f, "-t", target)
+					atomic.AddInt64(&cliRuns, 1)
+					if err != nil || code != 0 {
+						run.Violate("C07/"+f+"/cli-build-failed", map[string]any{"case": i, "variant": "SOURCE_DATE_EPOCH=2208988800", "output": ev.Short(string(so)+string(se), 300)})
+						break
+					}
+					outs[k], _ = os.ReadFile(target)
+					_ = os.Remove(target)
+					if k == 0 {
+						time.Sleep(1050 * time.Millisecond)
+					}
+				}
+				if outs[0] == nil || outs[1] == nil {
+					continue
+				}
+				if !bytes.Equal(outs[0], outs[1]) {
+					run.Violate("C07/"+f+"/bytes-differ/source-date-epoch-after-2038", diffDetail(&cl, f, "SOURCE_DATE_EPOCH=2208988800 twice", outs[0], outs[1]))
+				}
+				checkStamps(run, &cl, f, outs[1], "SOURCE_DATE_EPOCH=2208988800", &stamps)
 			}
 		})
 		// SOURCE_DATE_EPOCH=0 is a valid fixed mtime: two runs one second apart
